@@ -28,14 +28,13 @@ go test -vet=off -count=1 ./cmd/rdpgw/... ./cmd/auth/ntlm/ ./cmd/auth/database/ 
 mv /tmp/zz_seed_demo_$name.go $wt/$pkgdir/zz_seed_demo_test.go
 go test -vet=off -count=1 -run "$run" ./$pkgdir/ >/tmp/sc_demo_$name.log 2>&1; rc_with=$?
 VR=${VERIF_ROOT:-/verif}
+# run the check on the scratch worktree with the change applied (/repo itself is never touched)
+rm -f $wt/$pkgdir/zz_seed_demo_test.go
 cd $VR
-git -C /repo worktree remove --force $wt
-# run the check on /repo with the change applied
-git -C $REPO apply $dst/patch.diff
 t0=$(date +%s)
-out=$(bin/vcheck -repo $REPO -prop $prop -tier $tier 2>&1); rc_check=$?
+out=$(bin/vcheck -repo $wt -prop $prop -tier $tier 2>&1); rc_check=$?
 t1=$(date +%s)
-git -C $REPO checkout -- .
+git -C /repo worktree remove --force $wt
 git -C /verif checkout -- evidence 2>/dev/null  # evidence files describe the unchanged tree only
 verdict=$(echo "$out" | grep -E '^(VIOLATION|INCONCLUSIVE|PASS)' | head -4)
 labels=$(echo "$out" | grep -E '^  harness=' | sed 's/  harness=\([^ ]*\) label=\([^ ]*\).*/\1\/\2/' | head -6 | tr '\n' ' ')
@@ -48,7 +47,7 @@ meta={"property":prop,"name":name,"breaks":readme.strip().split('\n')[0:12],
  "confirmed":{"patch_applies":rc_apply=="0","builds":rc_build=="0","existing_suite_passes_with_change":rc_suite=="0",
               "demo_passes_without_change":rc_without=="0","demo_fails_with_change":rc_with!="0"},
  "what_i_ran":[f"scratch worktree of /repo HEAD: demo in {pkgdir} without the change; git apply patch.diff; go build; go test ./cmd/rdpgw/... ./cmd/auth/ntlm/ ./cmd/auth/database/; demo again",
-               f"git -C /repo apply patch.diff; bin/vcheck -prop {prop} -tier {tier}; git -C $REPO checkout -- ."],
+               f"scratch worktree with patch.diff applied: bin/vcheck -repo <worktree> -prop {prop} -tier {tier}; worktree removed"],
  "check":{"exit_code":int(rc_check),"seconds":int(secs),"caught":rc_check=="1","inconclusive":rc_check=="3","labels":labels.split()}}
 json.dump(meta,open(dst+'/meta.json','w'),indent=1)
 print(name,"confirmed=",all(meta["confirmed"].values()),meta["confirmed"] if not all(meta["confirmed"].values()) else "","check_exit=",rc_check,"labels=",labels)
